@@ -7,6 +7,7 @@ symbolic index yields sum_b idx_b * T[2^b]; a branch on a scalar bit is if-conve
 Group elements are linear forms whose atoms are `P` or `P*b<n>` (point times scalar bit).
 Loops have constant bounds.  The result must be exactly sum_n 2^n * b_n * P."""
 import exp
+import roles
 from exp import Agg, BV, BitVal, Int, Lin, Opt, RangeIt, Ref, TOP
 from facts import callee
 
@@ -76,7 +77,19 @@ def transfer(I, fr, t, c, pth):
             fr.storev(dest, BitSeq(ent))
             return True
         return False
-    if name == 'next' and res.startswith('<ff::BitIterator<'):
+    if name in ('skip', 'take') and (d.endswith('Iterator::' + name) or res.endswith('Iterator::' + name)) and len(args) == 2:
+        v = fr.operand(args[0])
+        n_ = fr.operand(args[1])
+        if isinstance(n_, BV) and n_.as_int() is not None:
+            n_ = Int(n_.as_int())
+        if isinstance(v, BitSeq) and isinstance(n_, Int):
+            if name == 'skip':
+                fr.storev(dest, BitSeq(v.entries, min(len(v.entries), v.pos + n_.v)))
+            else:
+                fr.storev(dest, BitSeq(v.entries[:v.pos + n_.v], v.pos))
+            return True
+        return False
+    if name == 'next' and (res.startswith('<ff::BitIterator<') or res.startswith('<std::iter::Skip<') or res.startswith('<std::iter::Take<')):
         v = fr.deref_operand(args[0])
         if isinstance(v, BitSeq):
             if v.pos < len(v.entries):
@@ -159,9 +172,11 @@ def rule_scalar_mul(fx, rep, groups):
         if p and fx.body(p):
             rep.fn(p)
             try:
-                I, res = run(fx, p, [('byref', P), scalar_value()], inline=lambda q: q == aff + '::mul_bits')
+                mb = roles.roles(fx)[g].get('mul_bits')
+                I, res = run(fx, p, [('byref', P), scalar_value()], inline=lambda q: q == mb)
                 rep.sites(I.call_sites)
-                rep.fn(aff + '::mul_bits')
+                if mb:
+                    rep.fn(mb)
                 ok = len(res) == 1 and isinstance(res[0][1], Lin) and res[0][1] == want
                 n += 1
                 rep.check(ok, 'BITLIN', '%s:affine-mul' % g, 'returns sum_n 2^n b_n P over all 256 scalar bits (MSB-first double-and-add, if-converted)',
@@ -280,7 +295,7 @@ def rule_projective_mul(fx, rep, groups):
 def rule_wnaf_table(fx, rep):
     """wnaf_table(table, base, w): for w = 2..8 the table is exactly the odd multiples
     [1, 3, ..., 2^w - 1] * base (2^(w-1) entries), whatever the buffer held before."""
-    p = 'wnaf::wnaf_table'
+    p = roles.roles(fx)['wnaf'].get('table')
     if fx.body(p) is None:
         rep.fail('BITLIN', 'wnaf_table:anchor', 'not found')
         return
@@ -320,7 +335,7 @@ def rule_wnaf_exp(fx, rep):
     string of length <= 3 and every sign pattern (digits symbolic), the result is
     sum_j 2^j n_j P."""
     import itertools
-    p = 'wnaf::wnaf_exp'
+    p = roles.roles(fx)['wnaf'].get('exp')
     if fx.body(p) is None:
         rep.fail('BITLIN', 'wnaf_exp:anchor', 'not found')
         return
